@@ -30,18 +30,24 @@ def aliasPair (pref : Str) (a : Str) : Str × Str :=
   | '-' :: n => (['-'], pref ++ n)
   | n => (dashFor n, pref ++ n)
 
-/-- the generated candidates (after DASH rewriting), in code order -/
-def candidates (cfg : Cfg) (fw : FW) : List Str :=
+/-- `option` after DASH rewriting (field_wrapper.py:598,602-603) -/
+def flatCand (cfg : Cfg) (fw : FW) : Str :=
   let option0 := fw.pref ++ fw.name
+  if cfg.dash = .dashOnly then dashify option0 else option0
+
+/-- `nested_option` after DASH rewriting (field_wrapper.py:599-604) -/
+def nestedCand (cfg : Cfg) (fw : FW) : Str :=
   let nested0 := match cfg.nest with
     | .default => fw.dest
     | .withoutRoot => dropRoot fw.dest
-  let option := if cfg.dash = .dashOnly then dashify option0 else option0
-  let nested := if cfg.dash = .dashOnly then dashify nested0 else nested0
+  if cfg.dash = .dashOnly then dashify nested0 else nested0
+
+/-- the generated candidates (after DASH rewriting), in code order (field_wrapper.py:610-615) -/
+def candidates (cfg : Cfg) (fw : FW) : List Str :=
   match cfg.gen with
-  | .flat => [option]
-  | .nested => [nested]
-  | .both => [option, nested]
+  | .flat => [flatCand cfg fw]
+  | .nested => [nestedCand cfg fw]
+  | .both => [flatCand cfg fw, nestedCand cfg fw]
 
 /-- the `(dash, option)` pairs before the UNDERSCORE_AND_DASH extension, in code order -/
 def basePairs (cfg : Cfg) (fw : FW) : List (Str × Str) :=
